@@ -1,7 +1,8 @@
 (** C05 -- A scope fails as itself or as Concurrent: promptly, with exactly the right content.
     Statements about [Scope._collect_exceptions]/[_propagate_exceptions] as transcribed in theories/Lib.v
     (the very functions the whole-program machine executes), for all failure lists. *)
-From Coq Require Import ZArith List Bool String.
+From Coq Require Import ZArith List Bool.
+From Coq Require String.
 From Usim Require Import XTime Tables Kernel Machine Lib ScopeExcProps.
 From UsimGen Require Import Generated GeneratedProps.
 Import ListNotations.
